@@ -50,6 +50,13 @@ pub fn draw_params(ctx: &mut Ctx, small: bool, max_blocks: u64) -> RtParams {
 
 /// Encodes according to `p` onto a fresh file of ctx.disk. Err = the encoder refused or failed.
 pub fn encode_to_disk(ctx: &mut Ctx, p: &RtParams) -> Result<Encoded, EncErr> {
+    crate::world::FLUSH_BETWEEN.with(|f| f.set(ctx.ch.draw("w.flush_between", 4) == 3));
+    let r = encode_to_disk_inner(ctx, p);
+    crate::world::FLUSH_BETWEEN.with(|f| f.set(false));
+    r
+}
+
+fn encode_to_disk_inner(ctx: &mut Ctx, p: &RtParams) -> Result<Encoded, EncErr> {
     let file = ctx.disk.create(vec![0xA5; p.cfg.offset]);
     let f = ctx.disk.open(file, p.wben).set_pos(p.cfg.offset as u64);
     let mut sink = wrap_sink(f, p.wcap);
@@ -281,6 +288,27 @@ pub fn check_c09(ctx: &mut Ctx, enc: &Encoded) -> R {
         }
     };
     if !matches!(s.end, StreamEnd::Clean) {
+        // Was the stream parseable before finalize rewrote the header? Then finalize moved the frames
+        // relative to the metadata (or wrote over them): C09's own clause. Otherwise the frames were
+        // never right, which is C01/C02's matter.
+        if let Ok(before) = refflac::parse_stream(&enc.pre_finalize, off) {
+            let parsed_before = before.frames.len();
+            if parsed_before > 0 && parsed_before >= s.frames.len() && !enc.pre_finalize.is_empty() {
+                let a0 = before.meta.audio_start;
+                let a1 = s.meta.audio_start;
+                let first = &before.frames[0];
+                let same_place = enc.media.len() >= first.end && enc.media[first.start..first.end] == enc.pre_finalize[first.start..first.end];
+                if a0 != a1 || !same_place {
+                    return viol(
+                        "frames-touched",
+                        format!(
+                            "before finalize the metadata ended at byte {a0} and {parsed_before} frame(s) parsed from there; after finalize the metadata ends at byte {a1} and the frames no longer parse ({:?}): finalize changed the header's size or wrote over the first frame",
+                            s.end
+                        ),
+                    );
+                }
+            }
+        }
         ctx.skip_foreign(format!("frames not parseable ({:?}) — C01/C02's matter", s.end));
         return Ok(());
     }
@@ -591,6 +619,18 @@ pub fn run_sizes(ctx: &mut Ctx) -> R {
     };
     if frames * cfg.channels as usize > 400_000 {
         cfg.channels = 1;
+    }
+    // the padding block sized to within a few bytes of what the seek table written at finalize needs
+    // (4-byte block header + 18 bytes per point), for lengths discovered at finalize
+    if mode != 2 && ch.draw("sz.padfit", 3) == 2 {
+        let nfr = frames.div_ceil(cfg.block as usize);
+        let every = 1 + ch.draw("sz.padfit.every", 2) as usize;
+        cfg.seek = SeekPolicy::Frames(every);
+        cfg.declare_total = ch.draw("sz.padfit.declared", 4) == 3;
+        let points = nfr.div_ceil(every);
+        let want = 4 + 18 * points as i64 + (ch.draw("sz.padfit.delta", 9) as i64 - 4);
+        cfg.padding = Some(want.max(0) as u32);
+        probe("sizes_padding_fits_seektable_within_4_bytes");
     }
     // cheap signal: silence, a constant, a slow ramp or small noise
     let fam = *ch.pick("sz.fam", &[0u64, 1, 3, 5]);
